@@ -151,7 +151,9 @@ pub fn c17_judge(g: &GCase, a: &Analysis, text: &str) -> Result<(), Failure> {
     let fail = |kind: &str, d: String| Err(Failure::new(kind, d, case.clone()));
     let e = match emitted::read(text) {
         Ok(e) => e,
-        Err(m) => return fail("unreadable-tables", format!("the emitted text does not have the documented table layout: {m}")),
+        // a text the reader cannot parse says nothing about the tables' content: inconclusive, not a violation
+        // (the emitted layout is frozen by the repository's snapshot tests; see DESIGN.md Appendix D)
+        Err(m) => return Err(Failure::internal("unreadable-tables", format!("the harness cannot read the emitted tables: {m}"), case.clone())),
     };
     let cfg = &g.cfg;
     // column orders
